@@ -142,7 +142,11 @@ class DirDBM:
             raise
         else:
             if old.exists():
-                old.remove()
+                try:
+                    old.remove()
+                except BaseException:
+                    new.remove()
+                    raise
             new.moveTo(old)
 
     def __getitem__(self, k):
